@@ -52,8 +52,9 @@ Aux0 == [nsid |-> 0, end |-> Len(W), dep |-> 0, rm |-> 0]
 \* (the inner input of rematch is a plain memory_input again: rm counts the rematch scopes the run is in)
 Dep == IF Cfg.cls = 1 /\ aux.rm = 0 THEN aux.dep ELSE -1
 \* the control family is a property of the invocation: control< C, R > switches it for a sub-tree
-FullVis(f) == f.cf \in {3, 4}
-HasUnw(f)  == f.cf \in {2, 4}
+\* (5, 6: the tracing control on top of must_if< Errors >::control, full visibility with unwind)
+FullVis(f) == f.cf \in {3, 4, 5, 6}
+HasUnw(f)  == f.cf \in {2, 4, 5, 6}
 PosCtx == [eol |-> Cfg.eol, ib |-> Cfg.ib, il |-> Cfg.il, ic |-> Cfg.ic]
 
 Enabled(f) == FullVis(f) \/ Nodes[f.n].en = 1
@@ -105,6 +106,9 @@ MInit == /\ fr = <<Frame(Cfg.g, Cfg.A, Cfg.M, Cfg.af, Cfg.cf)>>
          /\ cur = 0 /\ ret = -1 /\ exc = NoExc /\ q = <<>> /\ done = -1 /\ aux = Aux0
 
 \* the action Action< Rule > in family af: what the control dispatches after the body matched [beg, cur)
+\* must_if< Errors >::control< Rule >::failure raises instead of returning: 5: iff Errors has a message for the rule, 6: iff
+\* Errors::raise_on_failure< Rule >
+MiRaises(f) == Enabled(f) /\ ((f.cf = 5 /\ Nodes[f.n].mihas = 1) \/ (f.cf = 6 /\ Nodes[f.n].mirof = 1))
 \* family 5: a rule that carries a switch (table field sw) has the change_* class as its action: no apply / apply0
 SwOf(f) == IF f.af = 5 /\ f.re = 0 THEN Nodes[f.n].sw ELSE 0
 \* family 4: a rule that carries a limit (table field lim = kind * 1000 + N) has limit_depth< N > (1), limit_bytes< N > (2) or
@@ -160,7 +164,7 @@ Enter ==
 
 \* result of an atom at the cursor: <<matched?, new cursor>>  (one size / peek test, then one bump)
 AtomStep(n) ==
-   LET r == D!DenX(D!Lift(n), cur, [A |-> 0, lim |-> End, fam |-> 0, vis |-> 0, eol |-> Cfg.eol, ib |-> Cfg.ib, il |-> Cfg.il, ic |-> Cfg.ic, dep |-> 0], 3)
+   LET r == D!DenX(D!Lift(n), cur, [A |-> 0, lim |-> End, fam |-> 0, vis |-> 0, eol |-> Cfg.eol, ib |-> Cfg.ib, il |-> Cfg.il, ic |-> Cfg.ic, dep |-> 0, mi |-> 0], 3)
    IN IF r.k = "T" THEN <<1, r.e>> ELSE <<0, cur>>
 \* rules without sub-rules that match in one step (their peeks and bumps are not modelled individually)
 NonAtoms == {"raise", "apply", "apply0", "opaque", "seq", "sor", "raw_string"}     \* raw_string calls its helper rules through the control
@@ -431,6 +435,13 @@ After ==
            /\ q' = actev
            \* the body has returned: the rule's own guard is gone, only match()'s guard (if any) is left to restore
            /\ fr' = SetTop([f EXCEPT !.pc = "thrown", !.sv = -1])
+           /\ UNCHANGED <<cur, ret, done, aux>>
+      ELSE IF v = 0 /\ MiRaises(f)
+      THEN \* must_if: the failure hook throws parse_error( Errors::message< Rule > or the rule's own message, in ); match()'s
+           \* guard, if there is one, restores as its destructor runs; no unwind hook for this invocation
+           /\ exc' = [who |-> f.n, at |-> cur, cls |-> 1, m |-> 0, n |-> 0]
+           /\ q' = actev \o hook
+           /\ fr' = SetTop([f EXCEPT !.pc = "thrown", !.sv = -1, !.nouw = 1])
            /\ UNCHANGED <<cur, ret, done, aux>>
       ELSE IF limx # 0
       THEN \* the limit action raises after match() returned true: no hook and no guard of this invocation is involved any more
